@@ -351,8 +351,14 @@ impl QueryTask {
             } else {
                 self.convert_to_output_format(&full_result, &state.explains)
             };
-            self.sender.send(Ok(final_result));
-            self.completed.store(true, Ordering::SeqCst);
+            match final_result {
+                Ok(final_result) => {
+                    self.sender.send(Ok(final_result));
+                    self.completed.store(true, Ordering::SeqCst);
+                }
+                // A result of inconsistent shape is reported as an error value instead of panicking on the worker
+                Err(error) => self.fail_with_no_lock(error),
+            }
         }
     }
 
@@ -385,7 +391,7 @@ impl QueryTask {
         &self,
         full_result: &BatchResult,
         explains: &[String],
-    ) -> QueryOutput {
+    ) -> Result<QueryOutput, QueryError> {
         let lo = self
             .final_pass
             .as_ref()
@@ -395,7 +401,7 @@ impl QueryTask {
         // An offset at or beyond the end of the result selects no rows.
         let offset = cmp::min(lo.offset as usize, full_result.len());
         let count = cmp::min(limit, full_result.len() - offset);
-        full_result.validate().unwrap();
+        full_result.validate()?;
 
         let mut rows = None;
         if self.rowformat {
@@ -430,7 +436,7 @@ impl QueryTask {
             columns.push((colname.clone(), column));
         }
 
-        QueryOutput {
+        Ok(QueryOutput {
             colnames: self.output_colnames.clone(),
             rows,
             columns,
@@ -441,7 +447,7 @@ impl QueryTask {
                 files_opened: self.perf_counter.files_opened(),
                 disk_read_bytes: self.perf_counter.disk_read_bytes(),
             },
-        }
+        })
     }
 
     fn combined_limit(&self) -> usize {
